@@ -12,7 +12,7 @@ from math import ceil
 PROP = "C05"
 META = {
  "engine": "S-scheduler",
- "text": "Coq theorems (Props/C05.v) about the executable model of Timeline/Track (Sched/Model.v), for ALL call times t, all q >= 0, d >= 0 and all tick lengths (no bound; induction over histories): the time computed by _schedule_action is the least multiple of q that is >= t, plus d (t + d for q = 0 and for t on the q-grid); update()/schedule() resolve None arguments from the timeline defaults, explicit arguments win, positive device latency is added to the delay, and Track.start runs inside the call iff q = d = 0, otherwise a start action for that time is appended in request order; the action stays pending over ANY history (ticks, outside calls, calls made by callbacks, faults) whose ticks all begin before its time; the first tick that begins at or after it fires it before any track event of that tick, the track gets the new stream with next_event_time = current_time while count, mute state and pending note-offs are untouched, of several due starts for one track the one requested last wins, and the first event of the new stream is the event performed on that tick (C01 places the later ones); on ticks without a due start the track only pulls from the stream it has. Tied to /repo on every run by a correspondence check (call times on/off the q-grid, at 0 and after up to 2*10^4 (quick) / 2*10^5 (thorough) ticks, q, d in {0, one tick, 0.1, 0.25, 1/3, 0.5, 1, 4} beats and None, 9 resolutions, calls from outside and from action callbacks, 1-3 updates with colliding target ticks, timeline defaults vs explicit arguments, device latency) executed on the real Timeline with a recording OutputDevice and inside Coq (vm_compute) on the model, compared call by call and tick by tick, plus an independent exact-fraction oracle (start tick, old stream until then / new stream after, last update wins, pending notes released on time).",
+ "text": "Coq theorems (Props/C05.v) about the executable model of Timeline/Track (Sched/Model.v), for ALL call times t, all q >= 0, d >= 0 and all tick lengths (no bound; induction over histories): the time computed by _schedule_action is the least multiple of q that is >= t, plus d (t + d for q = 0 and for t on the q-grid); update()/schedule() resolve None arguments from the timeline defaults, explicit arguments win, positive device latency is added to the delay, and Track.start runs inside the call iff q = d = 0, otherwise a start action for that time is appended in request order; the action stays pending over ANY history (ticks, outside calls, calls made by callbacks, faults) whose ticks all begin before its time; the first tick that begins at or after it fires it before any track event of that tick, the track gets the new stream with next_event_time = current_time while count, mute state and pending note-offs are untouched, of several due starts for one track the one requested last wins, and the first event of the new stream is the event performed on that tick (C01 places the later ones); on ticks without a due start the track only pulls from the stream it has. Tied to /repo on every run by a correspondence check (call times on/off the q-grid, at 0 and after up to 2*10^4 (quick) / 2*10^5 (thorough) ticks, q, d in {0, one tick, 0.1, 0.25, 1/3, 0.5, 1, 4} beats and None, 9 resolutions, calls from outside and from action callbacks, 1-3 updates with colliding target ticks, timeline defaults vs explicit arguments, device latency) executed on the real Timeline with a recording OutputDevice and inside Coq (vm_compute) on the model, compared call by call and tick by tick, plus an independent exact-fraction oracle (start tick, old stream until then / new stream after, last update wins, pending notes released on time). Float layer: Props/C05Float.v proves that the action due test as the source writes it decides like the exact comparison at every resolution (also where tick times are decimal ties of round(., 8): 512 | ticks_per_beat); a stratum of 140 cases at resolutions 512..5120 whose quantize / delay are whole numbers of ticks handed over as inexact doubles (products, sums, differences) on many call ticks is judged by the exact-fraction start tick and reports the tie defect repaired by 9bb39e5 if it returns.",
  "note": "Trusted: Coq kernel+VM; the Python harness. Modelled, not verified: IEEE-754 arithmetic inside isobar (the model computes in exact integer units; agreement is validated by the correspondence runs, not proved); events are taken already resolved (C03). The 'old stream until' theorems are stated for callbacks that perform no timeline operation (an update made by a callback is itself a request covered by the request/pending/fire theorems); the composition of the per-tick theorems into one end-to-end trace statement is by reading, the correspondence compares whole traces. An immediate update (q = d = 0) made between ticks at exactly the time a deferred start for the same track is due is overridden by that deferred start (the action phase runs after the call): such collisions are generated, judged by the model, and excluded from the oracle's last-wins verdict (docs/C05.md).",
 }
 
@@ -223,6 +223,78 @@ def gen_case(rng, tier, long_ticks=None):
     return sc
 
 
+# ---- the float layer: start times that fall on a decimal tie of round(., 8) -------------------------------------------
+# When 512 divides ticks_per_beat, tick times with exactly nine decimals (k/512: every odd k) are ties of round(x, 8).  A delay or
+# quantize value that is a whole number of ticks MATHEMATICALLY but is written as a float product or sum (delay=(7/3)*(33/3584)
+# for 11/512 beat) puts the action's time a last bit beside such a tie; a due test that rounds both operands separately
+# then says "not due" on the exact tick and the track starts one tick late.
+TIE_TPBS = [512, 512, 1024, 1536, 2560, 5120]
+TIE_FACTORS = [F(7, 3), F(11, 10), F(3, 10), F(7, 10), F(1, 3), F(9, 10), F(13, 10), F(1, 10), F(5, 7), F(2, 3), F(1, 5), F(6, 5)]
+
+
+def inexact_double(rng, value):
+    """a double within 1e-13 of the rational `value` (a whole number of ticks) that a caller obtains by writing it as a product
+    a * (value / a) or a sum / difference with a non-dyadic a: (hex, how); ("exact") when twenty attempts all round correctly"""
+    for _ in range(20):
+        a = rng.choice(TIE_FACTORS)
+        if rng.random() < 0.65:
+            x, how = float(a) * float(value / a), "product"
+        elif value > a:
+            x, how = float(a) + float(value - a), "sum"
+        else:
+            x, how = float(a) - float(a - value), "difference"
+        if x != float(value) and abs(F(x) - value) < F(1, 10 ** 13) and x > 0:
+            return x.hex(), how
+    return float(value).hex(), "exact"
+
+
+def gen_tie_case(rng):
+    """one schedule()/update() with quantize/delay that are whole numbers of ticks written as inexact doubles, requested on an
+    arbitrary tick of a timeline whose resolution is a multiple of 512; same scenario/oracle format as gen_case"""
+    tpb = rng.choice(TIE_TPBS)
+    tick = F(1, tpb)
+    family = rng.choice(["schedule", "schedule", "update"])
+    c = rng.choice([0, 1, 2, 2, 3, 5, rng.randint(0, 64), rng.randint(0, 64), rng.randint(0, tpb), rng.randint(0, 2 * tpb)])
+    r = rng.random()
+    n = 2 * rng.randint(0, 15) + 1 if r < 0.4 else 2 * rng.randint(0, tpb) + 1 if r < 0.85 else rng.randint(1, 2 * tpb)
+    d = n * tick
+    q = F(0)
+    if rng.random() < 0.3:
+        q = rng.choice([1, 3, 5, 11, 33, tpb // 4, tpb // 2 + 1, rng.randint(1, tpb)]) * tick
+        if rng.random() < 0.4:
+            d = F(0)
+    floats = {}
+    hows = {"q": "-", "d": "-"}
+    for key, v in (("q", q), ("d", d)):
+        if v:
+            floats[key], hows[key] = inexact_double(rng, v)
+    ops, nid = [], 0
+    o = {"tpb": tpb, "reqs": [], "family": family, "inside": False, "initial": None, "target_after_caller": False}
+    if family == "update":
+        s0, desc0 = make_stream(rng, tpb, 20, cyclic=True)
+        ops.append(G.sched_op(s0, F(0), F(0), None, False))
+        o["initial"] = {"c": 0, "qe": F(0), "de": F(0), "desc": desc0, "inside": False}
+    s, desc = make_stream(rng, tpb, 40)
+    if c > 0:
+        ops.append(["tick", c])
+    ops.append(G.sched_op(s, q, d, None, False) if family == "schedule" else ["update", 0, s, q, d, None])
+    pos = len(ops) - 1
+    o["reqs"].append({"c": c, "qe": q, "de": d, "desc": desc, "inside": False})
+    X = (q * ceil(c * tick / q) if q else c * tick) + d
+    start = max(c, int(ceil(X / tick)))
+    total = start + rng.choice([3, tpb // 4, tpb // 2, tpb]) + 2
+    ops.append(["tick", total - c])
+    o["total"], o["target"] = total, 0
+    sc = {"tpb": tpb, "config": {}, "callbacks": [], "ops": ops, "floats": {str(pos): floats},
+          "meta": {"family": family, "inside": False, "mode": "tie", "nreq": 1, "defaults": None, "latency": "0",
+                   "requests": [{"call_tick": c, "q": "0" if not q else "whole-ticks-as-" + hows["q"],
+                                 "d": "0" if not d else "whole-ticks-as-" + hows["d"]}],
+                   "quantize_beats": str(q), "delay_beats": str(d),
+                   "floats": {k: "%r" % float.fromhex(v) for k, v in floats.items()}}}
+    sc["_o"] = o
+    return sc
+
+
 # ---- the oracle: written from the property text, exact fractions ------------------------------------------------
 def expected_trace(o, deferred_beats_immediate=False):
     """dict tick -> sorted list of ("on"|"off", note) the target track must emit; plus a flag 'ambiguous' when an
@@ -311,7 +383,11 @@ def check(run):
     scs = [gen_case(rng, run.tier) for _ in range(n)]
     longs = [2 * 10 ** 4] * 6 if quick else [2 * 10 ** 5] * 12 + [2 * 10 ** 4] * 12
     scs += [gen_case(rng, run.tier, long_ticks=lt - rng.randint(0, 50)) for lt in longs]
+    scs += [gen_tie_case(rng) for _ in range(140 if quick else 2200)]
     fin = [G.finalize(strip(sc)) for sc in scs]
+    for f in fin:
+        if f.get("floats") and f["U"] * 2 > 10 ** 8:
+            raise CheckError("tie stratum: U = %d is too large for the exactness lemmas" % f["U"])
     results = S.run_impl(run, fin, shards=14)
     flagged = set()
     n_amb = 0
